@@ -276,7 +276,10 @@ func TestC12Files(t *testing.T) {
 		for attempt := 0; attempt < 40; attempt++ {
 			quiescenceMsg = ""
 			refs, err := func() (map[string]bool, error) {
-				// (read through scorch: root.bolt is locked by the open index)
+				// (read through scorch: root.bolt is locked by the open index; listing and
+				// loading must not straddle a purge pass, exactly as in the sampler)
+				c12Mu.Lock()
+				defer c12Mu.Unlock()
 				eps, err := s.RootBoltSnapshotEpochs()
 				if err != nil {
 					return nil, err
